@@ -168,6 +168,19 @@ func step(r *vrt.Run, ref *twin, suts []*sut, i inv) {
 		want, wantNil, wantErr = expected(i.conv, reply, err)
 	}
 	refDump := dump(ref.s)
+	if i.conv == "pipe2" {
+		var parts []string
+		anyErr := false
+		for _, c := range i.raw {
+			reply, err := ref.raw.Do(context.Background(), c.([]any)...).Result()
+			parts = append(parts, rawResult(reply, err))
+			if err != nil {
+				anyErr = true
+			}
+		}
+		want, wantNil, wantErr = strings.Join(parts, " ; ")+fmt.Sprintf(" ; overall=%v", anyErr), false, nil
+		refDump = dump(ref.s)
+	}
 	if i.conv == "pipe" {
 		want, wantNil, wantErr = "", false, nil
 		for _, c := range i.raw {
@@ -179,13 +192,13 @@ func step(r *vrt.Run, ref *twin, suts []*sut, i inv) {
 	}
 	for _, u := range suts {
 		name, args := i.m, i.args
-		if i.conv == "pipe" || i.conv == "blpop" {
+		if i.conv == "pipe" || i.conv == "blpop" || i.conv == "pipe2" {
 			got, gotErr := special(u, i)
 			if wantErr != nil {
 				if gotErr == nil || !strings.Contains(gotErr.Error(), wantErr.Error()) {
 					r.Failf("%s: %v returned (%s, %v); the raw commands fail with %q", u.name, i, got, gotErr, wantErr)
 				}
-			} else if gotErr != nil || (i.conv == "blpop" && got != want) {
+			} else if gotErr != nil || ((i.conv == "blpop" || i.conv == "pipe2") && got != want) {
 				r.Failf("%s: %v returned (%s, %v); the raw commands %v answer %s", u.name, i, got, gotErr, i.raw, want)
 			}
 			if d := u.dump(); d != refDump {
@@ -250,6 +263,24 @@ func special(u *sut, i inv) (string, error) {
 		}
 		return "", rds.Pipelined(fn)
 	}
+	if i.conv == "pipe2" {
+		var cmds []red.Cmder
+		fn := func(p redis.Pipeliner) error {
+			cmds = []red.Cmder{p.Get(ctx, "nokey"), p.Incr(ctx, "p"), p.HGet(ctx, "h", "f1"), p.LPop(ctx, "nokey"), p.Set(ctx, "p2", "v", 0), p.Incr(ctx, "h")}
+			return nil
+		}
+		var err error
+		if u.ctxForm {
+			err = rds.PipelinedCtx(ctx, fn)
+		} else {
+			err = rds.Pipelined(fn)
+		}
+		var parts []string
+		for _, c := range cmds {
+			parts = append(parts, cmdResult(c))
+		}
+		return strings.Join(parts, " ; ") + fmt.Sprintf(" ; overall=%v", err != nil), nil
+	}
 	if u.node == nil {
 		n, err := redis.CreateBlockingNode(rds)
 		if err != nil {
@@ -285,6 +316,45 @@ func special(u *sut, i inv) (string, error) {
 		return strconv.Quote(v) + " | false", nil
 	}
 	return strconv.Quote(v), err
+}
+
+// cmdResult renders one pipelined command's own outcome.
+func cmdResult(c red.Cmder) string {
+	if err := c.Err(); err != nil {
+		if err == red.Nil {
+			return "nil"
+		}
+		return "err:" + err.Error()
+	}
+	switch x := c.(type) {
+	case *red.StringCmd:
+		return strconv.Quote(x.Val())
+	case *red.IntCmd:
+		return strconv.FormatInt(x.Val(), 10)
+	case *red.StatusCmd:
+		return x.Val()
+	}
+	return fmt.Sprint(c)
+}
+
+// rawResult renders the reply of the same command issued on its own.
+func rawResult(reply any, err error) string {
+	if err == red.Nil {
+		return "nil"
+	}
+	if err != nil {
+		return "err:" + err.Error()
+	}
+	switch x := reply.(type) {
+	case string:
+		if x == "OK" {
+			return "OK"
+		}
+		return strconv.Quote(x)
+	case int64:
+		return strconv.FormatInt(x, 10)
+	}
+	return fmt.Sprint(reply)
 }
 
 // enabled: blocking pops only on a non-empty list.
@@ -578,6 +648,9 @@ func perMethodBreaker() {
 			}
 			if len(i.raw) == 1 && i.raw[0] == "none" {
 				continue // size 0: answered without contacting the server
+			}
+			if i.conv == "pipe2" {
+				continue // the plain pipeline stands for pipelines here
 			}
 			for _, kind := range []string{"nil", "canceled", "error"} {
 				t.reset()
